@@ -698,16 +698,16 @@ class WakeupOracle(HOracle):
     def on_event(self, ev, sim):
         k = ev["kind"]
         if k == "selret":
-            if ev.get("T") == 0 and ev.get("ret") == 0 and self.work == self.last_work:
+            if ev.get("T") == 0 and self.work == self.last_work:
                 self.spin += 1
                 if self.spin == 200:
                     try:
                         todo = os.listdir(sim.qpath("todo"))
                     except OSError:
                         todo = ["?"]
-                    if not todo and not sim.outstanding:
-                        self.violate("C16/busy-loop", "200 consecutive zero-timeout selects that found nothing while todo/ is empty, nothing is "
-                                     "outstanding and no file was touched in between")
+                    if not todo:
+                        self.violate("C16/busy-loop", "200 consecutive zero-timeout selects while todo/ is empty, no delivery command was issued, "
+                                     "no report arrived and no file was touched in between (last select returned %r)" % ev.get("ret"))
             else:
                 self.spin = 0
             self.last_work = self.work
